@@ -28,7 +28,8 @@ def one_case(c: dict[str, Any]) -> dict[str, Any]:
     exp_name = EXPECTED if c["expected"] else None
     hello_name = {"empty": "", "equal": EXPECTED, "other": "otherdev"}[c["name"]]
     nname = {"absent": None, "equal": EXPECTED, "different": "otherdev", "empty": ""}[c.get("noise_name", "equal")]
-    w = ConnWorld(noise=noise, client=True, expected_name=exp_name, password="pw" if c["password"] else None,
+    via_setter = c.get("via") == "setter"
+    w = ConnWorld(noise=noise, client=True, expected_name=None if via_setter else exp_name, password="pw" if c["password"] else None,
                   login=c["login"], device_name=nname if noise else hello_name)
     stops: list[bool] = []
     try:
@@ -36,7 +37,16 @@ def one_case(c: dict[str, Any]) -> dict[str, Any]:
             stops.append(bool(expected))
 
         login = c["login"]
-        w.spawn("connect", lambda: w.client.connect(on_stop=on_stop, login=login))
+        if via_setter:
+            # the expected name is configured through the property setter between the two connect phases
+            async def two_phase() -> None:
+                await w.client.start_connection(on_stop=on_stop)
+                w.client.expected_name = exp_name
+                await w.client.finish_connection(login=login)
+
+            w.spawn("connect", two_phase)
+        else:
+            w.spawn("connect", lambda: w.client.connect(on_stop=on_stop, login=login))
         w.drain()
         w.io_connect(w.sock, 0)
         w.drain()
@@ -188,6 +198,17 @@ def cases(tier: str) -> list[dict[str, Any]]:
             continue
         out.append({"noise": False, "major": major, "minor": minor, "name": name, "expected": expected, "login": login,
                     "password": password, "invalid": invalid, "order": order})
+    # the expected name configured through the setter after start_connection(): same verdicts
+    for noise_flag in (False, True):
+        for major, name, login, invalid, order, nn in itertools.product((1, 3), ("empty", "equal", "other"), (False, True), (False, True),
+                                                                        ("two-chunks", "one-chunk", "one-chunk+DR"), NOISE_NAMES if noise_flag else ("equal",)):
+            if not login and invalid:
+                continue
+            cfg = {"noise": noise_flag, "major": major, "minor": 10, "name": name, "expected": True, "login": login, "password": False,
+                   "invalid": invalid, "order": order, "via": "setter"}
+            if noise_flag:
+                cfg["noise_name"] = nn
+            out.append(cfg)
     noise_orders = ORDERS
     noise_majors = (0, 1, 2, 3, 4, 2**32 - 1)
     for nn, major, name, expected, login, invalid, order in itertools.product(
